@@ -644,7 +644,11 @@ macro_rules! impl_writer_e {
                             }
                         }
                     }
-                    WWrap::Count => {
+                    WWrap::Count | WWrap::CountMid => {
+                        let mut bw = bw;
+                        if wrap == WWrap::CountMid {
+                            end_flush.push(BitWrite::write_bits(&mut bw, 0b101, 3).map_err(es));
+                        }
                         let mut cw = std::mem::ManuallyDrop::new(CountBitWriter::<$E, _>::new(bw));
                         {
                             let caps = WCaps { io_write: None, io_flush: None, counter: Some(|c: &CountBitWriter<$E, BufBitWriter<$E, WW>>| c.bits_written) };
